@@ -22,7 +22,7 @@
 (*   path component are taken from the tables AtomTok / CompChars below    *)
 (*   (finite alphabet used by the drivers).                                *)
 (***************************************************************************)
-EXTENDS Sequences, FiniteSets, Naturals, TLC
+EXTENDS Sequences, SequencesExt, FiniteSets, Naturals, TLC
 
 ----------------------------------------------------------------------------
 (* component globs *)
@@ -34,64 +34,66 @@ Class(n,s) == [k |-> "class", c |-> "", neg |-> n,     set |-> s]
 BadTok     == <<[k |-> "bad", c |-> "", neg |-> FALSE, set |-> {}]>>
 
 \* the characters of the path components the drivers use
-CompChars(c) ==
-  CASE c = "a"  -> <<"a">>
-    [] c = "b"  -> <<"b">>
-    [] c = "c"  -> <<"c">>
-    [] c = "ab" -> <<"a", "b">>
-    [] c = "ba" -> <<"b", "a">>
-    [] c = "*"  -> <<"*">>
-    [] c = "!"  -> <<"!">>
-    [] c = "A"  -> <<"A">>
-    [] c = "B"  -> <<"B">>
-    [] c = "Ab" -> <<"A", "b">>
-    [] c = "aB" -> <<"a", "B">>
-    [] c = "AB" -> <<"A", "B">>
+CompTab ==
+     ("a"      :> <<"a">>)
+  @@ ("b"      :> <<"b">>)
+  @@ ("c"      :> <<"c">>)
+  @@ ("ab"     :> <<"a", "b">>)
+  @@ ("ba"     :> <<"b", "a">>)
+  @@ ("*"      :> <<"*">>)
+  @@ ("!"      :> <<"!">>)
+  @@ ("A"      :> <<"A">>)
+  @@ ("B"      :> <<"B">>)
+  @@ ("Ab"     :> <<"A", "b">>)
+  @@ ("aB"     :> <<"a", "B">>)
+  @@ ("AB"     :> <<"A", "B">>)
+CompChars(c) == CompTab[c]
 
 \* the glob syntax (filepath.Match: '*', '?', '[' ['^'] ranges ']', '\\' escapes) of the pattern
 \* components the drivers use; Bad = malformed
-AtomTok(a) ==
-  CASE a = "a"     -> <<Lit("a")>>
-    [] a = "b"     -> <<Lit("b")>>
-    [] a = "c"     -> <<Lit("c")>>
-    [] a = "ab"    -> <<Lit("a"), Lit("b")>>
-    [] a = "ba"    -> <<Lit("b"), Lit("a")>>
-    [] a = "A"     -> <<Lit("A")>>
-    [] a = "B"     -> <<Lit("B")>>
-    [] a = "Ab"    -> <<Lit("A"), Lit("b")>>
-    [] a = "aB"    -> <<Lit("a"), Lit("B")>>
-    [] a = "AB"    -> <<Lit("A"), Lit("B")>>
-    [] a = "*"     -> <<Star>>
-    [] a = "?"     -> <<AnyCh>>
-    [] a = "a*"    -> <<Lit("a"), Star>>
-    [] a = "A*"    -> <<Lit("A"), Star>>
-    [] a = "*b"    -> <<Star, Lit("b")>>
-    [] a = "*B"    -> <<Star, Lit("B")>>
-    [] a = "a?"    -> <<Lit("a"), AnyCh>>
-    [] a = "?b"    -> <<AnyCh, Lit("b")>>
-    [] a = "??"    -> <<AnyCh, AnyCh>>
-    [] a = "*?"    -> <<Star, AnyCh>>
-    [] a = "a*b"   -> <<Lit("a"), Star, Lit("b")>>
-    [] a = "[ab]"  -> <<Class(FALSE, {"a", "b"})>>
-    [] a = "[a-b]" -> <<Class(FALSE, {"a", "b"})>>
-    [] a = "[A-B]" -> <<Class(FALSE, {"A", "B"})>>
-    [] a = "[^a]"  -> <<Class(TRUE, {"a"})>>
-    [] a = "[^A]"  -> <<Class(TRUE, {"A"})>>
-    [] a = "[!a]"  -> <<Class(FALSE, {"!", "a"})>>   \* Go globs negate with '^' only
-    [] a = "[a]b"  -> <<Class(FALSE, {"a"}), Lit("b")>>
-    [] a = "a[^a]" -> <<Lit("a"), Class(TRUE, {"a"})>>
-    [] a = "\\*"   -> <<Lit("*")>>
-    [] a = "\\a"   -> <<Lit("a")>>
-    [] a = "a\\b"  -> <<Lit("a"), Lit("b")>>
-    [] a = "a**"   -> <<Lit("a"), Star, Star>>       \* "**" is special only as a whole component
-    [] a = "**b"   -> <<Star, Star, Lit("b")>>
-    [] a = "***"   -> <<Star, Star, Star>>
-    [] a = "["     -> BadTok
-    [] a = "a["    -> BadTok
-    [] a = "[a"    -> BadTok
-    [] a = "[]"    -> BadTok
-    [] a = "\\"    -> BadTok
-    [] a = "a\\"   -> BadTok
+AtomTab ==
+     ("a"      :> <<Lit("a")>>)
+  @@ ("b"      :> <<Lit("b")>>)
+  @@ ("c"      :> <<Lit("c")>>)
+  @@ ("ab"     :> <<Lit("a"), Lit("b")>>)
+  @@ ("ba"     :> <<Lit("b"), Lit("a")>>)
+  @@ ("A"      :> <<Lit("A")>>)
+  @@ ("B"      :> <<Lit("B")>>)
+  @@ ("Ab"     :> <<Lit("A"), Lit("b")>>)
+  @@ ("aB"     :> <<Lit("a"), Lit("B")>>)
+  @@ ("AB"     :> <<Lit("A"), Lit("B")>>)
+  @@ ("*"      :> <<Star>>)
+  @@ ("?"      :> <<AnyCh>>)
+  @@ ("a*"     :> <<Lit("a"), Star>>)
+  @@ ("A*"     :> <<Lit("A"), Star>>)
+  @@ ("*b"     :> <<Star, Lit("b")>>)
+  @@ ("*B"     :> <<Star, Lit("B")>>)
+  @@ ("a?"     :> <<Lit("a"), AnyCh>>)
+  @@ ("?b"     :> <<AnyCh, Lit("b")>>)
+  @@ ("??"     :> <<AnyCh, AnyCh>>)
+  @@ ("*?"     :> <<Star, AnyCh>>)
+  @@ ("a*b"    :> <<Lit("a"), Star, Lit("b")>>)
+  @@ ("[ab]"   :> <<Class(FALSE, {"a", "b"})>>)
+  @@ ("[a-b]"  :> <<Class(FALSE, {"a", "b"})>>)
+  @@ ("[A-B]"  :> <<Class(FALSE, {"A", "B"})>>)
+  @@ ("[^a]"   :> <<Class(TRUE, {"a"})>>)
+  @@ ("[^A]"   :> <<Class(TRUE, {"A"})>>)
+  @@ ("[!a]"   :> <<Class(FALSE, {"!", "a"})>>)   \* Go globs negate with '^' only
+  @@ ("[a]b"   :> <<Class(FALSE, {"a"}), Lit("b")>>)
+  @@ ("a[^a]"  :> <<Lit("a"), Class(TRUE, {"a"})>>)
+  @@ ("\\*"    :> <<Lit("*")>>)
+  @@ ("\\a"    :> <<Lit("a")>>)
+  @@ ("a\\b"   :> <<Lit("a"), Lit("b")>>)
+  @@ ("a**"    :> <<Lit("a"), Star, Star>>)   \* "**" is special only as a whole component
+  @@ ("**b"    :> <<Star, Star, Lit("b")>>)
+  @@ ("***"    :> <<Star, Star, Star>>)
+  @@ ("["      :> BadTok)
+  @@ ("a["     :> BadTok)
+  @@ ("[a"     :> BadTok)
+  @@ ("[]"     :> BadTok)
+  @@ ("\\"     :> BadTok)
+  @@ ("a\\"    :> BadTok)
+AtomTok(a) == AtomTab[a]
 
 BadAtom(a) == a # "**" /\ AtomTok(a) = BadTok
 BadPat(pat) == \E i \in DOMAIN pat.parts : BadAtom(pat.parts[i])
@@ -154,7 +156,6 @@ RECURSIVE Join(_)
 Join(cs) == IF Len(cs) = 1 THEN cs[1] ELSE cs[1] \o "/" \o Join(Tail(cs))
 PathStr(p) == IF p.abs THEN "/" \o Join(p.comps) ELSE Join(p.comps)
 
-ToSet(s) == {s[i] : i \in DOMAIN s}
 ProperPrefixes(p) == {Prefix(p, n) : n \in 1..(Len(p.comps) - 1)}
 
 ----------------------------------------------------------------------------
@@ -180,33 +181,35 @@ Lower(s) ==
     [] OTHER -> s
 LowerSeq(q) == [i \in DOMAIN q |-> Lower(q[i])]
 
+\* (written so that TLC enumerates the universe once per derived set: operator arguments are
+\* evaluated once, LET-bound sets would be re-evaluated at every use)
+Judge(r, LStr, Need, MStr) ==
+  /\ ~r.err
+  /\ ToSet(r.l) = LStr
+  /\ ToSet(r.lw) = LStr
+  /\ Need \subseteq ToSet(r.lc)            \* children-may-match is never false above a match
+  /\ ToSet(r.deep) \subseteq ToSet(r.lc)
+  /\ r.single =>
+       /\ ToSet(r.m) = MStr
+       /\ Need \subseteq ToSet(r.c)
+       /\ ToSet(r.deep) \subseteq ToSet(r.c)
+
+EffPats(r) == IF r.fold THEN [i \in DOMAIN r.pats |-> [r.pats[i] EXCEPT !.parts = LowerSeq(@)]] ELSE r.pats
+EffPath(r, q) == IF r.fold THEN [q EXCEPT !.comps = LowerSeq(@)] ELSE q
+
+\* LSeq: the paths of the universe the pattern list accepts (a sequence, so that TLC holds it
+\* evaluated); for one un-negated pattern Listed is Matches by definition
+JudgeSeq(r, LSeq) ==
+  Judge(r,
+        {PathStr(LSeq[k]) : k \in DOMAIN LSeq},
+        UNION {{PathStr(Prefix(LSeq[k], n)) : n \in 1..(Len(LSeq[k].comps) - 1)} : k \in DOMAIN LSeq},
+        IF r.single THEN {PathStr(LSeq[k]) : k \in DOMAIN LSeq} ELSE {})
+
+JudgeOn(r, P, U) == JudgeSeq(r, SetToSeq({p \in U : Listed(P, EffPath(r, p))}))
+
 RecOK(r) ==
   /\ ~r.panic
   /\ LET bad == \E i \in DOMAIN r.pats : BadPat(r.pats[i]) IN
      /\ r.valerr = bad
-     /\ bad \/
-        LET U     == Paths(ToSet(r.alpha), r.depth)
-            P     == [i \in DOMAIN r.pats |->
-                        IF r.fold THEN [r.pats[i] EXCEPT !.parts = LowerSeq(@)] ELSE r.pats[i]]
-            Eff(q) == IF r.fold THEN [q EXCEPT !.comps = LowerSeq(@)] ELSE q
-            \* entries named, per pattern (evaluated once per pattern)
-            N     == [i \in DOMAIN P |-> {q \in U : Names(P[i], Eff(q))}]
-            root  == [i \in DOMAIN P |-> P[i].abs /\ Exact(P[i].parts, <<>>)]
-            M(i)  == {p \in U : (p.abs /\ root[i]) \/ \E n \in 1..Len(p.comps) : Prefix(p, n) \in N[i]}
-            MS    == [i \in DOMAIN P |-> M(i)]
-            L     == {p \in U : \E i \in DOMAIN P :
-                        /\ ~P[i].neg /\ p \in MS[i]
-                        /\ \A j \in (i + 1)..Len(P) : P[j].neg => p \notin MS[j]}
-            LStr  == {PathStr(p) : p \in L}
-            Need  == {PathStr(q) : q \in UNION {ProperPrefixes(p) : p \in L}}
-        IN
-        /\ ~r.err
-        /\ ToSet(r.l) = LStr
-        /\ ToSet(r.lw) = LStr
-        /\ Need \subseteq ToSet(r.lc)            \* children-may-match is never false above a match
-        /\ ToSet(r.deep) \subseteq ToSet(r.lc)
-        /\ r.single =>
-             /\ ToSet(r.m) = {PathStr(p) : p \in MS[1]}
-             /\ Need \subseteq ToSet(r.c)
-             /\ ToSet(r.deep) \subseteq ToSet(r.c)
+     /\ bad \/ JudgeOn(r, EffPats(r), Paths(ToSet(r.alpha), r.depth))
 =============================================================================
